@@ -599,6 +599,7 @@ def merkle_facts(ctx):
     out["merkle.pair"] = Fact(pair or "?pairing not found", whiles[0] if whiles else mr.node, mr)
     rets = [n for n in own_nodes(mr.node) if isinstance(n, ast.Return) and n.value is not None]
     out["merkle.result"] = Fact("blocks[0]" if any(norm(r.value) == "%s[0]" % p for r in rets) else "?" + ", ".join(norm(r.value) for r in rets), rets[0] if rets else mr.node, mr)
+    out["merkle.pure"] = purity_fact(ctx, mr)
     np2 = ctx.prog.func("torrentfile.utils:next_power_2")
     v = np2.params[0]
     wl = [n for n in own_nodes(np2.node) if isinstance(n, ast.While)]
@@ -627,7 +628,69 @@ def merkle_facts(ctx):
     return out
 
 
+def purity_fact(ctx, f):
+    """Does the helper modify the list it is given?  (aliases of the parameter through plain `x = p` are followed.)
+    A helper that folds in place returns the same value, but a caller that hands in the same list twice - HasherV2 builds
+    its all-zero piece once and asks for its root inside a loop - gets a different answer the second time."""
+    p = f.params[0]
+    alias = {p}
+    rebound = False
+    for n in own_nodes(f.node):
+        if isinstance(n, ast.Assign) and isinstance(n.value, ast.Name) and n.value.id in alias:
+            alias |= {t.id for t in n.targets if isinstance(t, ast.Name)}
+    g = C.cfg_of(f)
+    from tfsa.reach import ReachDefs
+    rd = ReachDefs(f, g)
+
+    def is_param_obj(name_node, stmt):
+        if name_node.id not in alias:
+            return False
+        defs = rd.reaching(name_node.id, C.stmt_node(ctx, f, stmt))
+        # the name still (possibly) denotes the caller's list if a parameter definition or an alias assignment reaches
+        return any(d.kind == "param" or (d.kind == "assign" and isinstance(d.value, ast.Name) and d.value.id in alias) for d in defs)
+    muts = []
+    for n in own_nodes(f.node):
+        st = ctx.prog.enclosing_stmt(n) if not isinstance(n, ast.stmt) else n
+        if isinstance(n, (ast.Assign, ast.AugAssign, ast.Delete)):
+            tgts = n.targets if isinstance(n, (ast.Assign, ast.Delete)) else [n.target]
+            for t in tgts:
+                if isinstance(t, ast.Subscript) and isinstance(t.value, ast.Name) and is_param_obj(t.value, n):
+                    muts.append(n)
+                if isinstance(n, ast.AugAssign) and isinstance(t, ast.Name) and is_param_obj(t, n):
+                    muts.append(n)
+        if isinstance(n, ast.Call) and isinstance(n.func, ast.Attribute) and isinstance(n.func.value, ast.Name) \
+                and n.func.attr in ("append", "extend", "insert", "pop", "remove", "clear", "sort", "reverse", "__setitem__", "__delitem__") and is_param_obj(n.func.value, st):
+            muts.append(n)
+    if not muts:
+        return Fact("does not modify the list it is given", f.node, f)
+    # is there a caller that keeps using the list?
+    keeps = []
+    weak = []
+    for c in ctx.prog.functions.values():
+        for call in own_nodes(c.node):
+            if isinstance(call, ast.Call) and any(t is f for t in C.targets_of(ctx, c, call)) and call.args:
+                a = call.args[0]
+                if isinstance(a, ast.Attribute):
+                    weak.append("%s passes %s" % (c.qual.split(":")[-1], norm(a)))
+                elif isinstance(a, ast.Name):
+                    cg = C.cfg_of(c)
+                    cn = C.stmt_node(ctx, c, ctx.prog.enclosing_stmt(call))
+                    redef = {m for m in cg.live_nodes() if m.kind == "stmt" and isinstance(m.ast, ast.Assign) and any(isinstance(t, ast.Name) and t.id == a.id for t in m.ast.targets)}
+                    after = set()
+                    for s2, _ in cn.succ:
+                        if s2 not in redef:
+                            after |= cg.reachable(s2, avoiding=redef)
+                    later = [m for m in after if m not in redef and m.ast is not None and any(isinstance(x, ast.Name) and x.id == a.id and isinstance(x.ctx, ast.Load)
+                                                                                         for x in ast.walk((C.test_expr(m) or m.ast) if m.kind == "test" else (m.ast.iter if m.kind == "iter" else m.ast)))]
+                    if later:
+                        keeps.append("%s passes `%s` and reads it again afterwards" % (c.qual.split(":")[-1], a.id))
+    if keeps:
+        return Fact("modifies the caller's list in place (`%s`), and %s" % (norm(muts[0])[:60], keeps[0]), muts[0], f)
+    return Fact("?modifies its argument in place (`%s`); %s" % (norm(muts[0])[:60], "; ".join(weak[:2]) or "no caller seen to reuse the list"), muts[0], f)
+
+
 SPEC_MERKLE = {
+    "merkle.pure": "does not modify the list it is given",
     "merkle.loop": "while len(blocks) > 1",
     "merkle.pair": "hashlib.sha256(left + right) over consecutive pairs",
     "merkle.result": "blocks[0]",
@@ -688,11 +751,13 @@ def hybrid_facts(ctx, H):
         F["v1.zero.ext"] = Fact("update(bytes(gap))" if z else "update(%s)" % norm(a), pad_up[0], fn)
         pn = C.stmt_node(ctx, fn, pad_up[0])
         conds = []
-        for b, lab in g.control_deps(pn):
+        for b, lab in g.control_deps(pn, normal_only=True):
             if b.kind != "test":
                 continue
             t = C.test_expr(b)
             for atom in C.atoms_of(t):
+                if any(isinstance(x, ast.Name) and x.id == H.L for x in ast.walk(atom)):
+                    continue        # `if not blocks: break` - the loop's exit test on the block list
                 txt = norm(atom).replace(pl, "gap")
                 if isinstance(t, ast.BoolOp) and isinstance(t.op, ast.Or):
                     txt = "(or) " + txt
